@@ -9,8 +9,17 @@ PY = "/venv/bin/python"
 TRUST = ("Trusted base: CPython's ast parser; the CFG builder in sa/cfg.py "
          "(exception edges over-approximate: any call may raise); name-based "
          "call matching; the reading that each rule is a necessary condition "
-         "of the clause it is attached to. Nothing is said about xmlsec1, "
-         "OpenSSL, ElementTree/defusedxml internals or the Python runtime.")
+         "of the clause it is attached to; the behaviour-preserving normal "
+         "form applied before the rules (inline expansion of helpers absent "
+         "from reference/functions.json, comprehension / conditional-"
+         "expression / any-all desugaring, alpha-renaming against "
+         "reference/locals.json - DESIGN 7.7). Nothing is said about xmlsec1, "
+         "OpenSSL, ElementTree/defusedxml internals or the Python runtime. "
+         "Thorough tier = the same rules plus a sensitivity pass: every "
+         "recorded single-edit variant of the property that still applies to "
+         "the tree is analysed in a scratch copy and must be reported (breaking "
+         "edits) or stay silent (benign edits); a blind rule fails the run "
+         "closed (exit 2).")
 
 P = {
  "C01": dict(
@@ -108,14 +117,21 @@ def main():
                               "per-function CFG with exception edges and "
                               "dominators, reaching definitions / derivation, "
                               "handler inventory, linear comparison normal "
-                              "forms, schema-table reflection",
+                              "forms, schema-table reflection, canonical guard "
+                              "atoms, behaviour-preserving normalisation "
+                              "(inline expansion of new helpers, desugaring, "
+                              "alpha-renaming), three-case abstract "
+                              "evaluation of optional-field filters",
         }],
         "checks": checks,
         "not_applicable": na,
         "notes": "All checks parse /repo (override: VERIF_REPO) on every run. "
                  "Exit 0 holds / 1 VIOLATION / 2 ANALYSIS-ERROR (fail closed). "
                  "Known findings: /verif/known_findings.json. Self-test "
-                 "variants: selftest/run.py; seeded changes: seeded/.",
+                 "variants: selftest/run.py (289); seeded breaking changes: "
+                 "seeded/ (57, all reported); behaviour-preserving refactoring "
+                 "patches: benign/ (20, all silent); tools/corpus.py re-checks "
+                 "both.",
     }
     with open(os.path.join(VERIF, "MANIFEST.json"), "w") as fh:
         json.dump(man, fh, indent=1)
